@@ -30,6 +30,15 @@ class Facts:
                 renames.apply(raw, self.renames)
             except ImportError:
                 pass
+        self._views = {}
+        self._known = None
+        if raw['crate'] == 'bio' and not os.environ.get('VERIF_NO_VIEW'):
+            try:
+                from .po_known import KNOWN
+                self._known = KNOWN
+            except ImportError:
+                pass
+        self._keep_known = (lambda p: p in self._known) if self._known is not None else None
         self.bodies = {}
         self.body_list = []
         for b in raw['bodies']:
@@ -55,12 +64,28 @@ class Facts:
                 self._closures[b.raw['root']].append(b)
         self._callgraph = None
 
+    # ---- views: what the rules analyse
+    def view(self, b):
+        """the body the rules analyse for function b: b itself with every function that did not exist when the rules
+        were written (rules/po_known.py) analysed in place (rules/inline.py) - a long function split into private parts,
+        or a block moved into a helper, still presents the same code to every rule. On a tree without new functions
+        this is b itself."""
+        if b is None or self._known is None or b.path not in self._known:
+            return b
+        v = self._views.get(b.key)
+        if v is None:
+            from . import inline
+            known = self._known
+            v = inline.inlined(self, b, keep=self._keep_known, policy=inline.new_function_policy, closureless=False)
+            self._views[b.key] = v
+        return v
+
     def body(self, path):
-        return self.bodies.get(path)
+        return self.view(self.bodies.get(path))
 
     def find(self, regex):
         r = re.compile(regex)
-        return [b for b in self.body_list if r.search(b.path)]
+        return [self.view(b) for b in self.body_list if r.search(b.path)]
 
     def one(self, regex):
         """exactly one body matching regex, else None"""
@@ -84,7 +109,7 @@ class Facts:
                 continue
             if trait_suffix is not None and (tr is None or not tr.endswith(trait_suffix)):
                 continue
-            out.append(b)
+            out.append(self.view(b))
         return out
 
     def method(self, impl_self, name, trait_suffix=None):
@@ -105,9 +130,19 @@ class Facts:
         return self._closures.get(path, [])
 
     def family(self, body):
-        """body together with all closures nested in it"""
+        """body together with all closures nested in it (and those of helpers analysed in place)"""
+        if body.kind == 'Closure':
+            return [body]
         root = body.raw.get('root', body.path)
-        return [body] + [c for c in self.closures_of(root) if c is not body] if body.kind != 'Closure' else [body]
+        out = [body] + [c for c in self.closures_of(root) if c is not body]
+        for cp in body.closure_literals():
+            cb = self.bodies.get(cp)
+            if cb is not None and all(cb is not x for x in out):
+                out.append(cb)
+                for x in self.closures_of(cb.raw.get('root') or cp):
+                    if all(x is not y for y in out):
+                        out.append(x)
+        return out
 
     def const_value(self, path):
         c = self.consts.get(path)
@@ -157,6 +192,19 @@ class Facts:
         while work:
             b = work.popleft()
             fam = [b] + (self.closures_of(b.path) if include_closures and b.kind != 'Closure' else [])
+            raw_b = self.bodies.get(b.key)
+            if raw_b is not None and raw_b is not b:
+                # b is a view (new helpers analysed in place): the helpers are reachable bodies in their own right
+                fam.append(raw_b)
+            if include_closures:
+                # closures built in this body (including those of helpers analysed in place, see view())
+                for cp in b.closure_literals():
+                    cb = self.bodies.get(cp)
+                    if cb is not None and all(cb is not x for x in fam):
+                        fam.append(cb)
+                        for x in self.closures_of(cb.raw.get('root') or cp):
+                            if all(x is not y for y in fam):
+                                fam.append(x)
             for fb in fam:
                 if fb.key not in seen:
                     seen[fb.key] = b.key
@@ -236,6 +284,16 @@ class Body:
 
     def stmts(self, bb):
         return self.blocks[bb]['s']
+
+    def closure_literals(self):
+        """paths of the closures constructed in this body"""
+        out = []
+        for blk in self.blocks:
+            for st in blk['s']:
+                if st['k'] == 'assign' and st['r'].get('k') == 'agg' and st['r'].get('ak') == 'closure' and st['r'].get('closure'):
+                    if st['r']['closure'] not in out:
+                        out.append(st['r']['closure'])
+        return out
 
     def is_cleanup(self, bb):
         return bool(self.blocks[bb].get('cleanup'))
